@@ -250,9 +250,28 @@ func (r *ref) number() interface{} {
 		return nil
 	}
 	if r.p >= len(r.in) || r.in[r.p] != '.' {
-		if r.p-ds > 18 {
-			r.fail(stNoClaim) // near / beyond the int64 range
+		if r.p-ds > 19 {
+			r.fail(stNoClaim) // beyond the int64 range
 			return nil
+		}
+		if r.p-ds == 19 {
+			// 19 digits: inside the int64 range or not (the magnitude fits uint64)
+			var m uint64
+			for _, d := range r.in[ds:r.p] {
+				m = m*10 + uint64(d-'0')
+			}
+			if r.in[start] == '-' {
+				if m > 1<<63 {
+					r.fail(stNoClaim)
+					return nil
+				}
+				return -int64(m)
+			}
+			if m > 1<<63-1 {
+				r.fail(stNoClaim)
+				return nil
+			}
+			return int64(m)
 		}
 		var v int64
 		for _, d := range r.in[ds:r.p] {
@@ -841,7 +860,7 @@ func C16_Skeleton() {
 	case 8:
 		// a top-level scalar between two free bytes (leading / trailing
 		// whitespace, or anything else)
-		words := []string{"true", "false", "null", "1", `"s"`, "1.5"}
+		words := []string{"true", "false", "null", "1", `"s"`, "1.5", "-9223372036854775808", "9223372036854775807"}
 		w := words[rt.Choose("scalar", len(words))]
 		in = cat(hole(1), s(w), hole(1))
 		if rt.Choose("bare", 2) == 1 {
